@@ -26,7 +26,7 @@ pub mod shims {
     use log::Record;
     use std::path::PathBuf;
     use std::io::{Stderr, Stdout};
-    pub struct DeferredNow { _o: () }
+    //@ include prelude/dnow_shim.rs
     pub struct FlexiLoggerError { _o: () }
     pub struct LogfileSelector { _o: () }
     /// permission + result oracles per kind of writer (kind: 0 = Std, 1 = Multi, 2 = Test)
@@ -48,7 +48,8 @@ pub mod shims {
                 pub fn write(&self, now: &mut DeferredNow, record: &Record) -> (r: std::io::Result<()>)
                     requires
                         w_ok($kind, record), //@label KindWriter::write.perm C13
-                    ensures r == w_result($kind, record),
+                        now_ok(old(now).origin()), //@label KindWriter::write.same_now C20
+                    ensures r == w_result($kind, record), final(now).origin() == old(now).origin(),
                 { unimplemented!() }
                 #[verifier::external_body]
                 pub fn flush(&self) -> (r: std::io::Result<()>)
@@ -141,6 +142,10 @@ pub mod primary_writer {
     //@   ret r
     //@   props C13,C02
     //@   req[PrimaryWriter::write.pre.perm] forall|k: int, x: &Record| #[trigger] w_ok(k, x) <==> (k == self.kind() && x == record)
+    //@   props C20
+    //@   req[PrimaryWriter::write.pre.same_now] forall|o: int| #[trigger] now_ok(o) <==> o == old(now).origin()
+    //@   ens[PrimaryWriter::write.post.same_now] final(now).origin() == old(now).origin()
+    //@   props C13,C02
     //@   ens[PrimaryWriter::write.post.handed_over] r == w_result(self.kind(), record)
     //@   canary
     //@ fn src/primary_writer.rs impl PrimaryWriter / fn flush
